@@ -4,6 +4,8 @@ Differential: the same call list is executed (i) as a batch on object X and (ii)
 an identical fresh object Y of the same daemon (so unexposed and private names reach the server gate exactly as they do
 inside a batch). Compared: result lists up to the first failure, the failure (class, args; at its position or at
 submission), and dump() of both objects afterwards. Oneway batches: None, then dump() over the same connection."""
+import time
+
 from vlib import core, gen, fixture
 
 PROPERTY = "C11"
@@ -14,7 +16,7 @@ RULE = ("call lists of length 0..12 over a stateful reference object (counter, l
         "(call list, mode, serializer, server); non-trivial = list has >= 2 calls")
 ASSUMPTIONS = ["oneway-marked methods and iterator-returning methods are not batched (documented as unsupported)",
                "an exposure failure may surface at submission instead of at its position (the statement allows both)"]
-REQUIRED_REACH = ["batch_equal", "failure_at_position", "failure_at_submit", "oneway_equal", "state_compared", "reused_batchproxy_equal"]
+REQUIRED_REACH = ["batch_equal", "failure_at_position", "failure_at_submit", "oneway_equal", "state_compared", "reused_batchproxy_equal", "forgotten_oneway_batch_equal"]
 SHARD_TIMEOUT = {"quick": 200, "thorough": 2400}
 
 
@@ -76,6 +78,11 @@ def make_ref_class(P):
         def fail_app(self, msg):
             self.calls += 1
             raise AppError(msg, self.calls)
+
+        def slow(self, t):
+            self.calls += 1
+            time.sleep(t)
+            self.items.append("slow-done")
 
         def dump(self):
             return {"counter": self.counter, "items": list(self.items), "table": dict(self.table), "calls": self.calls}
@@ -152,6 +159,55 @@ def run_batch(P, px, calls, oneway, b=None):
 
 def same_exc(a, b):
     return type(a) is type(b) and gen.deep_eq(a.args, b.args)
+
+
+def check_forget(fx, Ref, calls, sername, rec, n):
+    """fire and forget: a oneway batch whose proxy is released straight after submission, while the daemon is still busy with the first
+    (slow) call; the object's state is then read over another connection and compared with the same calls made one by one"""
+    P = fx.P
+    idx, idy = "fx%d" % n, "fy%d" % n
+    X, Y = Ref(), Ref()
+    fx.daemon.register(X, idx)
+    fx.daemon.register(Y, idy)
+    pay = {"calls": calls, "oneway": True, "forget": True, "serializer": sername, "servertype": fx.servertype}
+    rec.case(("forget", repr(calls), sername, fx.servertype), nontrivial=len(calls) >= 2, sample=pay if rec.evaluations % 100 == 5 else None)
+    try:
+        with fx.proxy(idy, serializer=sername) as py:
+            run_sequential(P, py, calls)
+            dumpy = py._pyroInvoke("dump", (), {})
+        px = fx.proxy(idx, serializer=sername)
+        try:
+            bres, bexc, where, ret = run_batch(P, px, calls, True)
+        finally:
+            px._pyroRelease()
+        if bexc is not None or ret is not None:
+            if sername == "marshal" and type(bexc) is ValueError and "unmarshallable" in str(bexc):
+                rec.violation("marshal-batch-member-exception-unmarshallable", "marshal oneway batch: %r" % (bexc,), pay)
+            else:
+                rec.violation("oneway-batch-returns-something", "oneway batch returned %r / raised %r" % (ret, bexc), pay)
+            return
+        deadline = time.monotonic() + 5.0
+        with fx.proxy(idx, serializer=sername) as pz:
+            while True:
+                dumpx = pz._pyroInvoke("dump", (), {})
+                if gen.deep_eq(dumpx, dumpy) or time.monotonic() > deadline:
+                    break
+                time.sleep(0.02)
+            if gen.deep_eq(dumpx, dumpy):
+                time.sleep(0.03)          # nothing more may happen afterwards either
+                dumpx = pz._pyroInvoke("dump", (), {})
+    except Exception as x:
+        rec.inconc("harness call failed: %r" % (x,))
+        return
+    finally:
+        fx.daemon.unregister(X)
+        fx.daemon.unregister(Y)
+    if not gen.deep_eq(dumpx, dumpy):
+        rec.violation("oneway-batch-state-differs", "oneway batch %r, proxy released straight after submitting: the object is (5 s later at most) %r; after the same calls "
+                      "one by one it is %r" % (calls, dumpx, dumpy), pay)
+        return
+    rec.count("forgotten_oneway_batch_equal")
+    rec.count("state_compared")
 
 
 def check_case(fx, Ref, calls, oneway, sername, rec, n):
@@ -288,6 +344,9 @@ def run_shard(shard, rec):
                 calls = gen_calls(r, length, fail_at)
                 n += 1
                 check_case(fx, Ref, calls, r.random() < 0.3, shard["serializer"], rec, n)
+                if r.random() < 0.12:
+                    n += 1
+                    check_forget(fx, Ref, [("slow", (r.choice([0.01, 0.04]),), {})] + calls, shard["serializer"], rec, n)
         for _ in range(max(10, shard["n"] // 2)):
             if rec.should_stop(30):
                 break
@@ -313,6 +372,8 @@ def replay(payload, rec):
     try:
         if "batches" in payload:
             check_reuse(fx, Ref, [(c, o) for c, o in payload["batches"]], payload["serializer"], rec, 1)
+        elif payload.get("forget"):
+            check_forget(fx, Ref, payload["calls"], payload["serializer"], rec, 1)
         else:
             check_case(fx, Ref, payload["calls"], payload["oneway"], payload["serializer"], rec, 1)
     finally:
